@@ -188,9 +188,12 @@ class Chain:
         self.view_begin = 0      # begin of the view the LAST accessor is called on
         self.steps = []          # (kind, needs_end_of_step, view_begin)
         self.views = []          # begin of every view the chain derives (also inside size computations)
+        self.huge = False        # some computed position does not fit a pointer (64-bit header values)
 
     def view(self, p):
         self.views.append(p)
+        if p >= 1 << 63:
+            self.huge = True
         return p
 
     def past_end(self, n):
@@ -225,6 +228,8 @@ class Spec:
     def size_data(self, d, p):
         self.cur.view(p)
         n = self.rd(p, d['lenSize'])
+        if p + d['lenSize'] + n >= 1 << 63:
+            self.cur.huge = True
         return p + d['lenSize'] + n, p + d['lenSize']
 
     def size_level(self, level, q, bl):
@@ -247,6 +252,8 @@ class Spec:
         num = self.rd(p + dim['numOff'], dim['numSize'])
         bl = self.rd(p + dim['blOff'], dim['blSize'])
         if is_flat(g['level']):
+            if p + dim['size'] + num * bl >= 1 << 63:
+                self.cur.huge = True
             return p + dim['size'] + num * bl, need
         q = p + dim['size']
         for _ in range(num):
@@ -593,11 +600,12 @@ def enum_chains(spec, max_entries=2, max_chains=400):
                 add(dp + [('e', 0)])
                 add(dp + [('e', n - 1)])
                 add(dp + [('w', n - 1)])
-            add(dp + [('r', n)])
-            add(dp + [('a', n)])
-            if n + 1 <= mx:
-                add(dp + [('r', n + 1)])
-                add(dp + [('a', n + 1)])
+            # counts: the stored one, the one that fits the image exactly, and one more (bounded: the driver
+            # allocates the source range)
+            fit = spec.L - (p[2] + d['lenSize'])
+            for cnt in sorted({c for c in (n, n + 1, fit, fit + 1) if 0 <= c <= min(mx, 4096)}):
+                add(dp + [('r', cnt)])
+                add(dp + [('a', cnt)])
 
     add([('H',)])
     leaves([('H',)], spec.m['hdrLeaves'])
